@@ -1,4 +1,6 @@
 mod core;
+mod docgen;
+mod kdev;
 mod props;
 mod strings;
 
@@ -59,6 +61,9 @@ fn main() {
     install_panic_hook();
     let code = match id.as_str() {
         "C01" => dispatch(props::c01::C01, &cfg, &replay),
+        "C03" => dispatch(props::c03::C03, &cfg, &replay),
+        "C06" => dispatch(props::c06::C06, &cfg, &replay),
+        "C09" => dispatch(props::c09::C09, &cfg, &replay),
         _ => {
             eprintln!("verif: unknown property {}", id);
             2
